@@ -6,7 +6,7 @@
 From CB Require Import Spec.
 From CBP Require Import MonadLemmas Arith AbsLemmas ListLemmas AbsOps Core Step RefDefs
      RefPushPop RefTruncate RemoveSwap Access Views DrainP FillExtend Ctors CmpHash
-     ExtendSlice ExtendIo Iters.
+     ExtendSlice ExtendIo Iters MoreOps.
 From Coq Require Import ZifyBool.
 Ltac Zify.zify_post_hook ::= Z.div_mod_to_equations.
 
@@ -76,6 +76,15 @@ Proof.
   - apply read_op.
   - apply fill_buf_op.
   - apply consume_op.
+  - exact boxed_op.
+  - exact default_op.
+  - apply iter_default_op.
+  - apply iter_mut_default_op.
+  - apply ref_into_iter_op.
+  - apply iter_debug_op.
+  - apply iter_mut_debug_op.
+  - apply drain_debug_op.
+  - apply into_iter_debug_op.
 Qed.
 
 (* ---- one step, in the form the corollaries use ------------------------------------ *)
@@ -123,7 +132,9 @@ Lemma spec_panics_iff N l o nid :
   match o with
   | OSwap i j => (i <? zlen l) && (j <? zlen l) = false
   | OIndex i | OIndexMutSet i _ => (i <? zlen l) = false
-  | ODrain sb eb _ _ | ORange sb eb _ | ORangeMut sb eb _ => spec_bounds (zlen l) sb eb = None
+  | ODrain sb eb _ _ | ORange sb eb _ | ORangeMut sb eb _
+  | OIterDebug sb eb _ | OIterMutDebug sb eb _ | ODrainDebug sb eb _ =>
+    spec_bounds (zlen l) sb eb = None
   | _ => False
   end.
 Proof.
